@@ -128,6 +128,32 @@ def scale_of(X, Y, q):
     return max([1.0] + [abs(float(v)) for v in list(X) + list(Y) + list(q)])
 
 
+NONFINITE = ("inf", "-inf", "nan")     # a non-finite query coordinate of a case (cases stay strict JSON); float() reads them
+DMAX2 = F(2) ** 1024                   # a squared distance >= 2**1024 is not a finite double
+
+
+def finite(v):
+    v = float(v)
+    return v == v and not math.isinf(v)
+
+
+def out_of_range(X, Y, q):
+    """No nearest point at a distance the code can hold: a coordinate of the query or of the polyline is inf / NaN, or the
+    EXACT squared distance from the query to every segment that proj_polyligne does not skip is >= 2**1024 (proj_segment
+    computes squared distances in doubles: they are all inf / NaN there). Decided on the input alone, in exact rational
+    arithmetic. On such an input the property does not constrain the code (it raises UnboundLocalError: no distance is
+    < the sentinel 1e400 = +inf); the correspondence with the model is still checked bit for bit."""
+    vals = [float(v) for v in list(X) + list(Y) + list(q)]
+    if not all(finite(v) for v in vals):
+        return True
+    if max([0.0] + [abs(v) for v in vals]) < 1e150:
+        return False          # every squared distance is below 8e300
+    qx, qy = fr(float(q[0])), fr(float(q[1]))
+    live = [s for j, s in enumerate(segments(X, Y))
+            if not (abs(float(X[j]) - float(X[j + 1])) + abs(float(Y[j]) - float(Y[j + 1])) < 1e-16)]
+    return bool(live) and all(seg_d2(qx, qy, *s) >= DMAX2 for s in live)
+
+
 def zf(v):
     """altitude of a case: None stands for NaN (cases stay strict JSON)"""
     return float("nan") if v is None else float(v)
@@ -218,10 +244,16 @@ class P(Prop):
             "again — each projection checked against the geometry of that moment. Track objects are never recycled within a process (no identity reuse). "
             "non-trivial = the polyline has at least one segment of non-zero length. Outside the property's domain (an error is accepted there): "
             "proj_segment on a zero-length segment, a polyline all of whose vertices coincide (up to the 1e-16 under which proj_polyligne skips a segment), "
-            "a Yp shorter than Xp. Failing answers are excused only inside the listed classes: vertical-segment (D16, also its numpy form inf/nan and segments "
+            "a Yp shorter than Xp, and an input whose distances are all outside the double range (a non-finite coordinate, or the exact squared "
+            "distance from the query to every non-skipped segment >= 2**1024: proj_polyligne then keeps nothing against its sentinel 1e400 and raises "
+            "UnboundLocalError). Sentinel stream (1 case in 41, appended): proj_polyligne / its two-sequence forms with a query coordinate inf / -inf / "
+            "nan / +-1e200 / +-1e308 / +-max double, or vertices at +-1e308, kept only when out of range in that exact sense; checked against the "
+            "sentinel-faithful model bit for bit, not constrained by the oracle. Failing answers are excused only inside the listed classes: vertical-segment (D16, also its numpy form inf/nan and segments "
             "that are vertical up to rounding, where the foot built through (0, -c / b) loses its ordinate) and horizontal-segment-fp (D17, also segments "
             "horizontal up to 64 ulps).")
-    trusted = ["math.sqrt / Float.sqrt correctly rounded; the sentinel 1e400 (+inf) modelled as 'no current minimum'"]
+    trusted = ["math.sqrt / Float.sqrt correctly rounded; the sentinel 1e400 is the double +inf (driver: 1.0 / 0.0), compared `dist < inf` as in the code "
+               "(sentinel-faithful forms projPolyligneS / projPolyligneXYS, tied exactly by tie_proj_polyligne_exact); the theorems of Props/C20 are about the "
+               "'no current minimum' forms, equal to them whenever every distance met is < inf (Lemmas/ProjSentinel.lean)"]
 
     def setup(self):
         from tracklib.util import geometry
@@ -268,6 +300,10 @@ class P(Prop):
         streams = ["lattice"] * 10 + ["decimal"] * 6 + ["geo", "geo", "lambert", "nearaxis"]
         for k in range(n):
             out.append(self.random_case(rng, streams[k % len(streams)]))
+        # the sentinel stream (appended: the cases above are unchanged for a given seed): proj_polyligne on inputs whose
+        # distances are all inf / NaN, where `dist < distmin` never holds against the sentinel 1e400 (UnboundLocalError)
+        for k in range(n // 40):
+            out.append(self.nonfinite_case(rng))
         return out
 
     # streams: lattice = integer lattice (exact in double arithmetic, the correspondence stream proper); decimal = two-decimal
@@ -431,6 +467,41 @@ class P(Prop):
         if kind == "mapt":
             return dict(base, Q=[self.rand_query(rng, stream, pts) for _ in range(nq)], QZ=QZ)
         return dict(base, q=self.rand_query(rng, stream, pts), qz=QZ[0])
+
+    HUGE = [1e308, -1e308]
+
+    def nonfinite_case(self, rng):
+        """proj_polyligne where every distance the loop meets overflows: an infinite / NaN query coordinate ("inf", "-inf",
+        "nan"), a huge one (1e200, 1e308, the largest double), or vertices at +-1e308 (finite: the polyline is a polyline).
+        Only candidates that are out_of_range (decided exactly on the input) are kept; the vertices are always finite."""
+        for _ in range(60):
+            how = rng.choice(["qinf", "qinf", "qhuge", "vhuge"])
+            n = rng.randint(2, 5)
+            if how == "vhuge":
+                V = self.HUGE + [0.0, 1.0, 2.0]
+                pts = [(rng.choice(V), rng.choice(V)) for _ in range(n)]
+                Q = self.HUGE + [0.0, 3.0, -1.0]
+                q = [rng.choice(Q), rng.choice(Q)]
+            else:
+                pts = self.rand_points(rng, "lattice", n)
+                q = list(self.rand_query(rng, "lattice", pts))
+                B = list(NONFINITE) if how == "qinf" else self.HUGE + [1e200, -1e200, 1.7976931348623157e308, -1.7976931348623157e308]
+                which = rng.choice([(0,), (1,), (0, 1)])
+                for j in which:
+                    q[j] = rng.choice(B)
+            X, Y = [p[0] for p in pts], [p[1] for p in pts]
+            if any(pts[j] != pts[j + 1] for j in range(n - 1)) and out_of_range(X, Y, q):
+                break
+        else:
+            X, Y, q = [0.0, 1.0, 2.0], [0.0, 1.0, 0.0], ["inf", 0.0]
+        kind = rng.choice(["poly", "poly", "poly", "polyxy"])
+        if kind == "polyxy":
+            if rng.random() < 0.5:
+                Y = Y + [float(rng.randint(-3, 8)) for _ in range(rng.randint(1, 2))]
+            else:
+                Y = Y[:rng.randint(0, len(Y) - 1)]
+        return {"kind": kind, "stream": "nonfinite", "cont": rng.choice(["list", "list", "tuple", "npf"]),
+                "qform": rng.choice(["float", "float", "np"]), "X": X, "Y": Y, "q": q}
 
     def random_seq(self, rng, stream, pts, coords):
         """operations on ONE track object: ["q", x, y, z] project a coordinate; ["qt", [[x, y, z], ..]] project a track of
@@ -712,9 +783,17 @@ class P(Prop):
             return [qs[j] + (r[0], r[1], r[2], r[3], r[4] if len(r) > 4 else None) for j, r in enumerate(out["rows"][:len(qs)])]
         return [qs[0] + (out["d"], out["p"][0], out["p"][1], out.get("i", 0), out.get("z"))]
 
+    def out_of_range(self, case):
+        """a query of the case has no nearest point at a distance a double can hold (see out_of_range above)"""
+        if case["kind"] == "polyxy" and len(case["Y"]) < len(case["X"]):
+            return False
+        return any(out_of_range(X, Y, q) for (X, Y, q, _) in self.queries_of(case))
+
     def in_domain(self, case):
         if case["kind"] == "polyxy" and len(case["Y"]) < len(case["X"]):
             return False        # a Yp shorter than Xp is not a polyline
+        if self.out_of_range(case):
+            return False        # every distance is outside the double range: no nearest point to return
         if case["kind"] == "seg":
             return not degenerate(segments(*self.poly_of(case))[0])
         # a polyline all of whose segments are shorter than 1e-16 (the threshold under which proj_polyligne skips a
@@ -727,6 +806,8 @@ class P(Prop):
         every clause — point on the carrying segment, distance to the returned point, minimum distance — is checked in
         the (X, Y) plane, whatever the altitudes of the track and of the query. The third coordinate of the returned
         point is constrained only when everything is flat (a point of a polyline at altitude 0 has altitude 0)."""
+        if self.out_of_range(case):
+            return None         # all distances inf / NaN (non-finite or overflowing coordinates): nothing to constrain, whatever is returned or raised
         if not self.in_domain(case):
             if "err" in out or case["kind"] == "polyxy":
                 return None     # zero-length segment / single-point polyline / malformed sequences: outside the property's domain
@@ -879,6 +960,8 @@ class P(Prop):
                     yield c
         # simpler numbers
         def simpler(v):
+            if isinstance(v, str) or not finite(v):
+                return []
             r = float(round(v))
             return [r] if r != v else []
         if k == "seg":
@@ -906,6 +989,8 @@ class P(Prop):
             for c in self.shrink(case):
                 yield c
             return
+        if any(isinstance(v, str) for v in case["q"]):
+            return
         for dx, dy in ((0, 0), (1, 0), (-1, 0), (0, 1), (0, -1), (0.5, 0.5), (2, -1)):
             yield dict(case, q=[case["q"][0] + dx, case["q"][1] + dy])
 
@@ -917,4 +1002,18 @@ P.theorems = P.theorems + [
     ("TracklibVerif.Tie.C20", "TV.Tie.C20.tie_cartesienne_short", "the translated cartesienne raises IndexError on every shorter list"),
     ("TracklibVerif.Tie.C20", "TV.Tie.C20.tie_projection_droite", "the translation of the CURRENT source of geometry.projection_droite equals the model's projectionDroite on all arguments, exceptions included"),
     ("TracklibVerif.Tie.C20", "TV.Tie.C20.tie_proj_segment", "the translation of the CURRENT source of geometry.proj_segment equals the model's projSegment on all arguments, exceptions included"),
+]
+P.theorems = P.theorems + [
+    ("TracklibVerif.Tie.C20", "TV.Tie.C20.tie_proj_polyligne", "the translation of the CURRENT source of geometry.proj_polyligne (for loop, sentinel 1e400 = inf, continue, possibly-unbound result) equals the model's projPolyligneXY (np=false, eps=1e-16) on all arguments whose kept distances are < inf, exceptions included (IndexError, ZeroDivisionError, UnboundLocalError)"),
+    ("TracklibVerif.Tie.C20", "TV.Tie.C20.tie_proj_polyligne_pairs", "the translated proj_polyligne on the abscissas/ordinates of a vertex list equals the kernel model projPolyligne on the vertices (same sentinel hypothesis), exceptions included"),
+    ("TracklibVerif.Tie.C20", "TV.Tie.C20.proj_polyligne_sentinel_deviation", "the sentinel hypothesis cannot be dropped: on one kept segment whose distance is not < inf the code raises UnboundLocalError while the model returns the segment"),
+]
+P.theorems = P.theorems + [
+    ("TracklibVerif.Tie.C20", "TV.Tie.C20.tie_proj_polyligne_exact", "EXACT (model correction): the translation of the CURRENT source of geometry.proj_polyligne equals the sentinel-faithful model projPolyligneXYS (np=false, same sentinel inf, eps=1e-16) on ALL arguments, no sentinel hypothesis, exceptions included (IndexError, ZeroDivisionError, UnboundLocalError also when every distance is inf/NaN)"),
+    ("TracklibVerif.Tie.C20", "TV.Tie.C20.tie_proj_polyligne_pairs_exact", "EXACT: the translated proj_polyligne on the abscissas/ordinates of a vertex list equals the sentinel-faithful kernel model projPolyligneS on ALL arguments, no hypothesis"),
+    ("TracklibVerif.Tie.C20", "TV.Tie.C20.tie_proj_polyligne_from_exact", "tie_proj_polyligne is a corollary of the exact tie and the agreement lemma: the sentinel hypothesis only passes from the sentinel-faithful model to the none-state model"),
+    ("TracklibVerif.Lemmas.ProjSentinel", "TV.Proj.projPolyligneXYS_eq", "agreement: if every distance met (non-skipped segment, proj_segment returns) is < inf, the sentinel-faithful projPolyligneXYS equals projPolyligneXY (any argument form), exceptions included"),
+    ("TracklibVerif.Lemmas.ProjSentinel", "TV.Proj.projPolyligneXYS_eq_false", "the same with Python numbers, hypothesis stated on the kernel projSegment (literally hinf of tie_proj_polyligne)"),
+    ("TracklibVerif.Lemmas.ProjSentinel", "TV.Proj.projPolyligneS_eq", "agreement on a vertex list: projPolyligneS = projPolyligne under the same hypothesis"),
+    ("TracklibVerif.Lemmas.ProjSentinel", "TV.Proj.projPolyligneXYS_single_not_lt", "the hypothesis separates the two forms: one kept segment with a distance not < inf -> the S-form raises UnboundLocalError (as the code), the none-state form returns the segment"),
 ]
